@@ -15,4 +15,13 @@ struct bignum_st { const unsigned char *src; int len; int nbytes; };	/* value re
 struct ECDSA_SIG_st { BIGNUM *r, *s; int derlen; };
 /* ghost: the DER buffer written by the last i2d_ECDSA_SIG and the signature object it came from */
 extern const void *g_der_buf; extern const ECDSA_SIG *g_der_sig;
+extern int g_lib_fail; extern unsigned g_ver_calls;
+/* the EVP_PKEY types an algorithm may be evaluated with (RFC 7518: RS* needs a
+ * plain RSA key, PS* takes RSA or RSA-PSS keys, ES* an EC key, EdDSA Ed25519/Ed448) */
+#define SPEC_OSSL_KEY_FITS(alg, id) ( \
+	(SPEC_IS_RS(alg) && (id) == EVP_PKEY_RSA) || (SPEC_IS_PS(alg) && ((id) == EVP_PKEY_RSA || (id) == EVP_PKEY_RSA_PSS)) || \
+	(SPEC_IS_ES(alg) && (id) == EVP_PKEY_EC) || (SPEC_IS_ED(alg) && ((id) == EVP_PKEY_ED25519 || (id) == EVP_PKEY_ED448)))
+/* key family of an EVP_PKEY id */
+#define SPEC_OSSL_FAMILY(id) (((id) == EVP_PKEY_RSA || (id) == EVP_PKEY_RSA_PSS) ? JWK_KEY_TYPE_RSA : (id) == EVP_PKEY_EC ? JWK_KEY_TYPE_EC : \
+	((id) == EVP_PKEY_ED25519 || (id) == EVP_PKEY_ED448) ? JWK_KEY_TYPE_OKP : JWK_KEY_TYPE_NONE)
 #endif
